@@ -242,12 +242,21 @@ static void disxb_child(DisxbShared *sh, CpuList *cpu, disasm_one_t f, uint32_t 
     else if (len1 < unit) { kind = "short"; }
     else if (len1 <= total)
     {
-      for (int i = len1; i < total; i++) { memory->write8(addr + i, (uint8_t)~bytes[i]); }
-      memset(text2, 0x55, size);
-      nv_cpu_alarm(20);
-      int len2 = f(memory, addr, text2, size, cpu->flags, &c0, &c1);
-      nv_cpu_alarm(0);
-      if (len2 != len1 || memchr(text2, 0, size) == NULL || strcmp(text1, text2) != 0) { kind = "nonlocal"; }
+      // locality: the bytes behind the reported length are replaced in five ways (complement, all ones, all
+      // zeros, 0xf0, 0x0f); text and length must not change
+      for (int alt = 0; alt < 5 && kind == NULL; alt++)
+      {
+        for (int i = len1; i < total; i++)
+        {
+          uint8_t b = alt == 0 ? (uint8_t)~bytes[i] : alt == 1 ? 0xff : alt == 2 ? 0x00 : alt == 3 ? 0xf0 : 0x0f;
+          memory->write8(addr + i, b);
+        }
+        memset(text2, 0x55, size);
+        nv_cpu_alarm(20);
+        int len2 = f(memory, addr, text2, size, cpu->flags, &c0, &c1);
+        nv_cpu_alarm(0);
+        if (len2 != len1 || memchr(text2, 0, size) == NULL || strcmp(text1, text2) != 0) { kind = "nonlocal"; }
+      }
     }
     // results of this pattern (only now: a pattern that kills the child is recorded by the parent)
     sh->count++;
